@@ -133,6 +133,14 @@ Theorem C06_rect_unique_encodes_dense : forall m subs (grid : list (R * R)) n0 n
             sumR (map (fun k => if Z.eqb (nth k u (-1)%Z) (Z.of_nat p) then nth k w 0 else 0) (seq 0 n)) = @mget ROps M i p).
 Proof. exact rect_unique_encodes_dense. Qed.
 
+(* rectangular_weight_is_cell_indicator: what pix_sub_weights lists for grid point s is the indicator of the cell containing it *)
+Theorem C06_rect_weight_is_cell_indicator : forall n0 n1 (grid : list (R * R)) (b : R), (0 < n0)%Z -> (0 < n1)%Z -> 0 < b ->
+  let g := @overlay ROps (n0, n1) grid b in
+  forall s p, (s < length grid)%nat -> (p < Z.to_nat (n0 * n1))%nat ->
+    listed_weight (fst (fst (@rect_psw ROps g grid))) (snd (fst (@rect_psw ROps g grid))) (snd (@rect_psw ROps g grid)) s p
+    = @rect_weight ROps (@geom_of_extent ROps (n0, n1) grid b) (nth s grid (0, 0)) p.
+Proof. exact rect_weight_is_cell_indicator. Qed.
+
 (* ---------------------------------------------------------------- Delaunay meshes *)
 (* the code's weight row: area ratios inside a simplex, (1, 0, 0) for a nearest-vertex row *)
 Theorem C06_delaunay_weight_row : forall (mesh : list (R * R)) (p : R * R) a b c, b <> (-1)%Z ->
@@ -184,6 +192,32 @@ Theorem C06_del_mapper_matrix : forall m subs (grid points : list (R * R)) simpl
           @mget ROps M i p = sumR (map (fun s => 1 / INR (sq_n (nth i subs 0%nat)) * del_w grid points simplices simplex_for s p)
                                        (block subs i))).
 Proof. exact del_mapper_matrix. Qed.
+
+(* what the Delaunay pix_sub_weights list for sub-pixel s towards p is del_w; and inside the simplex the oracle reports
+   (its contract: the simplex contains the point) del_w is the barycentric coordinate of p's vertex *)
+Theorem C06_delaunay_weight_is_claimed : forall (grid points : list (R * R)) simplices simplex_for,
+  length simplex_for = length grid ->
+  (forall row, In row simplices ->
+    exists a b c, row = [a; b; c] /\ (0 <= a < Z.of_nat (length points))%Z /\ (0 <= b < Z.of_nat (length points))%Z
+                  /\ (0 <= c < Z.of_nat (length points))%Z
+                  /\ @cross ROps (vtxR points row 0) (vtxR points row 1) (vtxR points row 2) <> 0) ->
+  (forall t, In t simplex_for -> t = (-1)%Z \/ (0 <= t < Z.of_nat (length simplices))%Z) ->
+  let mp := fst (@del_mappings ROps grid simplex_for simplices points) in
+  forall s p, (s < length grid)%nat ->
+    listed_weight mp (snd (@del_mappings ROps grid simplex_for simplices points)) (@del_weights ROps grid points mp) s p
+    = del_w grid points simplices simplex_for s p.
+Proof. exact del_weight_is_claimed. Qed.
+Theorem C06_delaunay_weight_barycentric_in_simplex : forall (grid points : list (R * R)) simplices simplex_for s p,
+  nth s simplex_for (-1)%Z <> (-1)%Z ->
+  let q := nth s grid (0, 0) in
+  let row := nth (Z.to_nat (nth s simplex_for (-1)%Z)) simplices [] in
+  @cross ROps (vtxR points row 0) (vtxR points row 1) (vtxR points row 2) <> 0 ->
+  @in_triangle ROps (vtxR points row 0) (vtxR points row 1) (vtxR points row 2) q = true ->
+  del_w grid points simplices simplex_for s p =
+  let '(b0, b1, b2) := @bary ROps (vtxR points row 0) (vtxR points row 1) (vtxR points row 2) q in
+  (if Z.eqb (nthZ row 0) (Z.of_nat p) then b0 else 0) + (if Z.eqb (nthZ row 1) (Z.of_nat p) then b1 else 0)
+  + (if Z.eqb (nthZ row 2) (Z.of_nat p) then b2 else 0).
+Proof. exact del_w_barycentric. Qed.
 
 (* outside the hull (oracle reports -1): one mapping of weight 1 to the nearest vertex, the first among ties *)
 Theorem C06_outside_hull_nearest_vertex : forall m subs (grid points : list (R * R)) simplices simplex_for,
@@ -252,6 +286,13 @@ Theorem C06_del_neighbors_rows : forall indptr indices P k, length indptr = S P 
   forall j, (b - a <= j)%nat -> nth j (nth k rows []) (-1)%Z = (-1)%Z.
 Proof. exact del_neighbors_rows. Qed.
 
+(* the edge relation of a set of simplices (what the harness compares the Delaunay neighbour lists with) is symmetric *)
+Theorem C06_tri_neighbors_spec : forall simplices a b,
+  In b (tri_neighbors simplices a) <-> exists s, In s simplices /\ In a s /\ In b s /\ b <> a.
+Proof. exact tri_neighbors_spec. Qed.
+Theorem C06_tri_neighbors_symmetric : forall simplices a b, In b (tri_neighbors simplices a) -> In a (tri_neighbors simplices b).
+Proof. exact tri_neighbors_symmetric. Qed.
+
 (* ---------------------------------------------------------------- non-vacuity *)
 (* mapper_ok is met by a concrete non-trivial input (2 unmasked pixels, sub-sizes 1 and 2, repeated and 3-fold mappings) *)
 Example C06_mapper_ok_satisfiable :
@@ -318,3 +359,5 @@ Print Assumptions C06_del_mapper_matrix. Print Assumptions C06_outside_hull_near
 Print Assumptions C06_del_unique_encodes_dense.
 Print Assumptions C06_rect_neighbors_are_adj4. Print Assumptions C06_adj4_symmetric. Print Assumptions C06_adj4_is_grid_adjacency.
 Print Assumptions C06_del_neighbors_rows.
+Print Assumptions C06_rect_weight_is_cell_indicator. Print Assumptions C06_delaunay_weight_is_claimed.
+Print Assumptions C06_delaunay_weight_barycentric_in_simplex. Print Assumptions C06_tri_neighbors_spec. Print Assumptions C06_tri_neighbors_symmetric.
